@@ -310,8 +310,8 @@ def LN(
 @xl.register()
 @xl.validate_args
 def LOG(
-        number: func_xltypes.Number,
-        base: func_xltypes.Number = 10
+        number: func_xltypes.XlNumber,
+        base: func_xltypes.XlNumber = 10
 ) -> func_xltypes.XlNumber:
     """Returns the logarithm of a number to the base you specify.
 
@@ -332,7 +332,7 @@ def LOG(
 @xl.register()
 @xl.validate_args
 def LOG10(
-        number: func_xltypes.Number
+        number: func_xltypes.XlNumber
 ) -> func_xltypes.XlNumber:
     """Returns the base-10 logarithm of a number.
 
